@@ -26,7 +26,7 @@ def run(ctx):
     for i_ in range(2):
         sessions.run_sessions(ctx, random.Random(ctx.seed * 2 + 77 + i_), 120 if ctx.quick else 2500, ('kev', 'fkev', 'kev', 'tr'),
                               lambda r, world=None: _c13.gen_dump(r, world=world, orphans=0.0, samples=0.0),
-                              _c13.gen_cfg, 'ses%d_' % i_)
+                              _c13.gen_cfg if i_ % 2 else sessions.cfg_light, 'ses%d_' % i_)
     ctx.expect_ok(run_tlc('Pipeline_MC', MC_CFG % (2 if ctx.quick else 3, T7, '0, 1, 2', 'FProcNone', 'FClassAll',
                                                    'FSubAll', 'ok', 'INVARIANT KeventsExact'),
                           ctx.workdir, name='pipe_kevents', timeout=7200))
